@@ -18,7 +18,7 @@ def run(tier, rep):
     d = lib.fresh("c19")
     cfg = d / "cfg.json"
     cfg.write_text(json.dumps({"maxlen": 2, "export": 1, "rich": 0 if quick else 1}))
-    r = lib.tlc("LineMapGen", workers=1, env={"GEN_CFG": cfg}, tag="c19gen", timeout=1800)
+    r = lib.tlc("LineMapGen", workers=1, coverage=True, env={"GEN_CFG": cfg}, tag="c19gen", timeout=1800)
     lib.require_clean(r, "LineMapGen")
     rep.mc(r, "LineMapGen(maxlen=2 rich=%d)" % (0 if quick else 1))
     seen, maps = set(), []
